@@ -48,9 +48,9 @@ structure K where
   /-- `sorted(components, key=str)` -/
   sortStr : List E → List E
   /-- `strict = false`: the code as it is.  `strict = true`: the same, except that the model stops (`none`) at the
-  three steps that are wrong for integer operands — `distribute_product` meeting a `Quotient` factor,
-  `distribute_quotient` splitting a `Sum` / `Quotient` numerator (or returning `1` for an empty one), and
-  `separate_coefficients._process` looking only at `children[1]` of a minus-prefixed factor with more operands -/
+  steps that are wrong for integer operands — `distribute_product` meeting a `Quotient` factor and
+  `distribute_quotient` splitting a `Sum` / `Quotient` numerator (or returning `1` for an empty one; likewise
+  `distribute_product` returning `1` for a product with an empty `Sum` factor) -/
   strict : Bool
 
 /-- `is_minus_prefix`: a `Product` (also `ParenthesisedMul`) whose first child is the bare Python `-1` -/
@@ -146,8 +146,9 @@ def dpBuild (den : List E) (done : List (List E)) : E :=
 
 def distributeProduct (st : Bool) (f : Nat) : E → Option E
   | .prod _ cs => do
-      let (den, done) ← dpLoop st f cs [] [[]]
-      pure (dpBuild den done)
+      let r ← dpLoop st f cs [] [[]]
+      -- an empty `done` (a factor `Sum(())`) makes the code return `1`: the strict model stops there too
+      if st && r.2.isEmpty then none else pure (dpBuild r.1 r.2)
   | e => some e
 
 /-! ### distribute_quotient -/
@@ -197,13 +198,16 @@ def isQuot : E → Bool
   | .quot _ _ _ => true
   | _ => false
 
+/-- `if flag: e = g(e)` -/
+def optIf (b : Bool) (g : E → Option E) (e : E) : Option E := if b then g e else some e
+
 def flattenLoop (st : Bool) : Nat → List E → List E → Option (List E)
   | 0, _, _ => none
   | _ + 1, [], done => some done
   | f + 1, item :: q, done =>
-    if !truthy item then flattenLoop st f q done else do
-      let i1 ← if isProd item then distributeProduct st f item else some item
-      let i2 ← if isQuot i1 then distQ st f i1 else some i1
+    if !truthy item then flattenLoop st f q done else
+      (optIf (isProd item) (distributeProduct st f) item).bind fun i1 =>
+      (optIf (isQuot i1) (distQ st f) i1).bind fun i2 =>
       match i2 with
       | .sum _ cs => flattenLoop st f (cs ++ q) done
       | _ => flattenLoop st f q (done ++ [i2])
@@ -255,44 +259,38 @@ def sumLiterals (f : Nat) : E → Option E
 
 /-! ### separate_coefficients / mul_literals / div_literals -/
 
-/-- `_process(child)` of `separate_coefficients` (`none` = IndexError on `Product((-1,))`) -/
-def scProc (st : Bool) : Nat → E → Option (Int × Option E)
+/-- `_process(child)` of `separate_coefficients`: a minus-prefixed factor is processed through
+`strip_minus_prefix(child)` (since the `fix:` commit; before it only `children[1]` was looked at) -/
+def scProc : Nat → E → Option (Int × Option E)
   | 0, _ => none
   | f + 1, e =>
     match e with
     | .pyint n => some (n, none)
     | .ilit n => some (n, none)
-    | .prod _ (c :: rest) =>
-      if isPyMinusOne c then
-        match rest with
-        | [] => none
-        | [x] => do
-            let r ← scProc st f x
-            pure (-r.1, r.2)
-        | x :: _ => if st then none else do
-            let r ← scProc st f x
-            pure (-r.1, r.2)
+    | _ =>
+      if isMinusPrefix e then do
+        let r ← scProc f (stripMinus e)
+        pure (-r.1, r.2)
       else some (1, some e)
-    | _ => some (1, some e)
 
 def prodInts : List Int → Int
   | [] => 1
   | x :: xs => x * prodInts xs
 
-def sepCoeff (st : Bool) : Nat → E → Option (Int × List E)
+def sepCoeff : Nat → E → Option (Int × List E)
   | 0, _ => none
   | f + 1, e =>
     match e with
     | .ilit n => some (n, [])
     | .prod _ cs =>
       if isMinusPrefix e then do
-        let r ← sepCoeff st f (stripMinus e)
+        let r ← sepCoeff f (stripMinus e)
         pure (-r.1, r.2)
       else
         match cs with
         | [] => none             -- `transformed_components[0]` raises IndexError
         | _ => do
-          let ps ← mapOpt (scProc st f) cs
+          let ps ← mapOpt (scProc f) cs
           pure (prodInts (ps.map (·.1)), ps.filterMap (·.2))
     | _ => some (1, [e])
 
@@ -306,9 +304,9 @@ def mulBuild (value : Int) (remaining : List E) : E :=
     | xs => .prod false xs
   if value < 0 then .prod false [.pyint (-1), ret] else ret
 
-def mulLiterals (st : Bool) (f : Nat) (e : E) : Option E :=
+def mulLiterals (f : Nat) (e : E) : Option E :=
   if isProd e then do
-    let r ← sepCoeff st f e
+    let r ← sepCoeff f e
     pure (mulBuild r.1 r.2)
   else some e
 
@@ -319,18 +317,17 @@ def isRlit : E → Bool
 def divRet (num : E) (d : Int) : E :=
   if d == 1 then num else .quot false num (.ilit d)
 
-/-- `div_literals` (fp_arithmetic off).  Literal quotients use exact integer division where Python computes
-`int(a / b)` in floating point: equal for `|a| < 2**53` (assumption of the model). -/
-def divLiterals (st : Bool) : Nat → E → Option E
+/-- `div_literals` (fp_arithmetic off); `//` by the gcd is exact integer division -/
+def divLiterals : Nat → E → Option E
   | 0, _ => none
   | f + 1, e =>
     match e with
     | .quot _ num den =>
       if isMinusPrefix num then do
-        let r ← divLiterals st f (.quot false (stripMinus num) den)
+        let r ← divLiterals f (.quot false (stripMinus num) den)
         pure (.prod false [.pyint (-1), r])
       else if isMinusPrefix den then do
-        let r ← divLiterals st f (.quot false num (stripMinus den))
+        let r ← divLiterals f (.quot false num (stripMinus den))
         pure (.prod false [.pyint (-1), r])
       else if isRlit num || isRlit den then some e
       else
@@ -342,10 +339,10 @@ def divLiterals (st : Bool) : Nat → E → Option E
             if g == 0 then none else           -- 0/0: ZeroDivisionError
             some (divRet (.ilit (n / g)) (d / g))
           | .prod _ _ => do
-            let r ← sepCoeff st f num
+            let r ← sepCoeff f num
             let g : Int := Int.gcd r.1 d
             if g == 0 then none else do
-            let m ← mulLiterals st f (.prod false (.ilit (r.1 / g) :: r.2))
+            let m ← mulLiterals f (.prod false (.ilit (r.1 / g) :: r.2))
             pure (divRet m (d / g))
           | _ => some (divRet num d)
         | _ => some e
@@ -371,7 +368,7 @@ def accumulate (k : K) (f : Nat) : List E → List (Key × Int) → Option (List
   | item :: items, d =>
     match item with
     | .prod _ _ => do
-        let r ← sepCoeff k.strict f item
+        let r ← sepCoeff f item
         if r.1 == 0 then accumulate k f items d
         else match r.2 with
           | [] => accumulate k f items (dictAdd k none r.1 d)
@@ -422,15 +419,16 @@ def isConstant : Nat → E → Option Bool
       | .ilit _ => some true
       | _ => some false
 
-/-- `get_constant_value` (`none`: AttributeError, a bare Python int or a nested product has no `.value`) -/
-def getConstantValue (e : E) : Option Int :=
-  if isMinusPrefix e then
-    match stripMinus e with
-    | .ilit n => some (-1 * n)
-    | _ => none
-  else match e with
-    | .ilit n => some n
-    | _ => none
+/-- `get_constant_value`: recursive through minus prefixes like `is_constant`; an `IntLiteral` gives its value, a
+bare Python int itself (`none`: not a constant — unreachable behind `is_constant`) -/
+def getConstantValue : Nat → E → Option Int
+  | 0, _ => none
+  | f + 1, e =>
+    if isMinusPrefix e then (getConstantValue f (stripMinus e)).map (fun v => -1 * v)
+    else match e with
+      | .ilit n => some n
+      | .pyint n => some n
+      | _ => none
 
 def cmpInt (o : CmpOp) (a b : Int) : Bool :=
   match o with
@@ -442,9 +440,6 @@ def isTrue : E → Bool
 def isFalse : E → Bool
   | .blit b => !b
   | _ => false
-
-/-- `if flag: e = g(e)` -/
-def optIf (b : Bool) (g : E → Option E) (e : E) : Option E := if b then g e else some e
 
 def simp (k : K) (fl : Flags) : Nat → E → Option E
   | 0, _ => none
@@ -459,13 +454,13 @@ def simp (k : K) (fl : Flags) : Nat → E → Option E
     | .prod _ xs =>
         (mapOpt (simp k fl f) xs).bind fun cs =>
         (optIf fl.flatten (flattenExpr k.strict f) (E.prod false cs)).bind fun n1 =>
-        (optIf fl.intA (mulLiterals k.strict f) n1).bind fun n2 =>
+        (optIf fl.intA (mulLiterals f) n1).bind fun n2 =>
         if k.ne n2 t then simp k fl f n2 else some t
     | .quot _ a b =>
         (simp k fl f a).bind fun a' =>
         (simp k fl f b).bind fun b' =>
         (optIf fl.flatten (flattenExpr k.strict f) (E.quot false a' b')).bind fun n1 =>
-        (optIf fl.intA (divLiterals k.strict f) n1).bind fun n2 =>
+        (optIf fl.intA (divLiterals f) n1).bind fun n2 =>
         if k.ne n2 t then simp k fl f n2 else some t
     | .pow true a b => do
         let a' ← simp k fl f a
@@ -493,8 +488,8 @@ def simp (k : K) (fl : Flags) : Nat → E → Option E
           let ca ← isConstant f a'
           let cb ← isConstant f b'
           if ca && cb then do
-            let x ← getConstantValue a'
-            let y ← getConstantValue b'
+            let x ← getConstantValue f a'
+            let y ← getConstantValue f b'
             pure (.blit (cmpInt o x y))
           else pure (.cmp o a' b')
         else pure (.cmp o a' b')
@@ -616,20 +611,6 @@ end
 /-- two or more `Quotient` nodes (with `Flatten` they can end up below one another; `distribute_quotient` then builds a
 *pymbolic* `Product` for the denominator, a class distinction `E` cannot express: outside the correspondence) -/
 def nestedQuot (e : E) : Bool := decide (2 ≤ countQuot e)
-
-/-- an integer literal of magnitude ≥ 2^53 (`div_literals` computes `int(a / b)` in binary64: exact below that) -/
-def hasBigLit : E → Bool
-  | .ilit n => decide (2 ^ 53 ≤ n.natAbs)
-  | .pyint n => decide (2 ^ 53 ≤ n.natAbs)
-  | .sum _ xs => xs.attach.any fun ⟨x, _⟩ => hasBigLit x
-  | .prod _ xs => xs.attach.any fun ⟨x, _⟩ => hasBigLit x
-  | .quot _ a b => hasBigLit a || hasBigLit b
-  | .pow _ a b => hasBigLit a || hasBigLit b
-  | .cmp _ a b => hasBigLit a || hasBigLit b
-  | .lnot a => hasBigLit a
-  | .land xs => xs.attach.any fun ⟨x, _⟩ => hasBigLit x
-  | .lor xs => xs.attach.any fun ⟨x, _⟩ => hasBigLit x
-  | _ => false
 
 /-- the tree part of the hypotheses of `C08_partial` -/
 def InDomain (fl : Flags) (t : E) : Bool :=
